@@ -28,8 +28,15 @@ def run(prop, explorations, accept_tags=None, extra_cov=None, extra_viol=(), lev
         if not cfgs:
             continue
         import os
+        if os.environ.get("VERIF_ONLY") and os.environ["VERIF_ONLY"] not in name:
+            continue  # sizing aid only
+        import os
         cap = int(os.environ.get("VERIF_MAXEXEC", "0")) or None  # sizing aid only: a capped run reports exhaustive=false
+        import sys, time
+        t0 = time.time()
         a = e1run.explore(factory, cfgs, budget, max_exec=cap)
+        if os.environ.get("VERIF_TIMING"):
+            print(f"[timing] {time.time() - t0:7.1f}s  {a['executions']:>9} executions  {len(cfgs):>5} configs  capped={a['capped']}  {name}", file=sys.stderr, flush=True)
         v, nt = e1run.to_violations(prop, a, factory, budget, accept_tags)
         viols += v
         notes += nt
